@@ -39,8 +39,16 @@ from fractions import Fraction as F
 
 from ..core import Ctx, MachineryError, digest
 from ..forkpool import prepare_imports, run_cases, _fresh_child
-from ..lattice import ALL, EMBEDDINGS, EXACT, OffLattice
+from ..lattice import ALL as _ALL8, EMBEDDINGS as _EMB8, EXACT as _EXACT8, Emb, OffLattice
 from .. import tlc
+
+# The eight shared embeddings plus two of this driver's own with MANY SIGNIFICANT DIGITS per coordinate (grid lines
+# that agree in their first six digits): a large origin with unit pitch, and a 0.001 pitch at offset 1000.
+EMBEDDINGS = dict(_EMB8)
+EMBEDDINGS["far"] = Emb("far", 1, 3 * 10 ** 6)               # 3000000.0, 3000001.0, ... (exact floats)
+EMBEDDINGS["farmilli"] = Emb("farmilli", F(1, 1000), 1000)   # 1000.0, 1000.001, 1000.002, ...
+ALL = list(_ALL8) + ["far", "farmilli"]
+EXACT = set(_EXACT8) | {"far"}
 
 VACUOUS = -10 ** 8          # a bound every shape meets: the cost constraint is a tautology and is not even posted
 RATIO = 2.0                 # minimum-error mode (rect.py --minerr, the default)
@@ -50,7 +58,7 @@ PUB = ("kind", "cells", "k", "den", "emb", "path", "plan", "proc", "alloc", "mod
 # carrier.factor per embedding (main() uses 10000): chosen so that the integer cell weights neither vanish (tiny)
 # nor overflow TLC's 32-bit integers (big)
 FACTOR = {"int": 10000, "flt": 10000, "half": 10000, "dec": 10000, "third": 10000, "off": 10000,
-          "big": 1, "tiny": 10 ** 8}
+          "big": 1, "tiny": 10 ** 8, "far": 10000, "farmilli": 10 ** 8}
 
 
 # ------------------------------------------------------------------------------------------------ real code
@@ -163,6 +171,21 @@ def _drive(base, start, step, max_calls, proc):
     return calls(lambda q: _fresh_child(_solve_once, q, 300))
 
 
+def _back(emb, v):
+    """Total pull-back of one coordinate: anything that is not a finite number on the lattice is OffLattice (the
+    caller reports clause off_lattice) -- never an exception of the harness."""
+    try:
+        f = float(v)
+    except (TypeError, ValueError):
+        raise OffLattice(f"not a number: {v!r}")
+    if f != f or f in (float("inf"), float("-inf")):
+        raise OffLattice(f"non-finite coordinate {v!r}")
+    try:
+        return emb.back_coord(f)
+    except (OverflowError, ValueError) as e:
+        raise OffLattice(f"coordinate {v!r}: {e}")
+
+
 def _record(emb, obs, case, bound, st, o, check_input=True):
     """Pull one call's output back to the lattice and append it to obs["events"]; -> False when the loop must stop."""
     if st == "harness_error":
@@ -172,26 +195,26 @@ def _record(emb, obs, case, bound, st, o, check_input=True):
         return False
     try:
         if "xs" not in obs:
-            obs["xs"] = [emb.back_coord(v) for v in o["xs"]]
-            obs["ys"] = [emb.back_coord(v) for v in o["ys"]]
+            obs["xs"] = [_back(emb, v) for v in o["xs"]]
+            obs["ys"] = [_back(emb, v) for v in o["ys"]]
             obs["wsel"], obs["wreal"] = o["wsel"], o["wreal"]
             if check_input:
-                got = [[emb.back_coord(v) for v in c[:4]] for c in o["input"]]
+                got = [[_back(emb, v) for v in c[:4]] for c in o["input"]]
                 if got != [c[:4] for c in case["cells"]]:
                     raise OffLattice(f"select_box changed the cells: {got[:3]}")
             else:
                 den, inp = case["den"], []
                 for c in o["input"]:
                     q = c[4] * den
-                    if abs(q - round(q)) > 1e-9:
+                    if q != q or abs(q) > 1e9 or abs(q - round(q)) > 1e-9:
                         raise OffLattice(f"occupancy {c[4]!r}")
-                    inp.append([emb.back_coord(v) for v in c[:4]] + [int(round(q))])
+                    inp.append([_back(emb, v) for v in c[:4]] + [int(round(q))])
                 obs["inp"] = inp
         if "exc" in o:
             obs["events"].append({"bound": bound, "exc": o["exc"]})
             return False
         ev = {"bound": bound, "sat": int(len(o["rects"]) > 0), "ret": o["ret"][0],
-              "rects": [[emb.back_coord(v) for v in r] for r in o["rects"]],
+              "rects": [[_back(emb, v) for v in r] for r in o["rects"]],
               "models": sorted(o["models"]), "full": o["full"]}
     except OffLattice as e:
         obs["events"].append({"bound": bound, "off": str(e)})
@@ -453,6 +476,10 @@ def tlc_cases(gen: list[dict], tier: str, rng: random.Random) -> list[dict]:
             cases.append(dict(base, cells=cells[::-1], emb="flt", path="direct", plan=["single", VACUOUS]))
         elif g["kind"] == "solve":
             si += 1
+            # input_problem order is arbitrary: as emitted (row-major), reversed, interleaved (far cells first)
+            cs = g["cells"]
+            cs = cs if si % 3 == 0 else cs[::-1] if si % 3 == 1 else cs[1::2][::-1] + cs[0::2]
+            base = dict(base, cells=cs)
             embs = [ALL[si % len(ALL)]] if tier == "quick" or len(g["cells"]) >= 9 else [ALL[si % len(ALL)], ALL[(si + 3) % len(ALL)]]
             for en in embs:
                 path = "select_box" if si % 3 == 0 else "direct"
